@@ -11,6 +11,7 @@ use std::{
 
 use serde_json::{json, Value};
 
+mod arrprobe;
 mod c17cmd;
 mod c14cmd;
 mod evalcmd;
